@@ -15,6 +15,8 @@
 #include "wrapsimlib.h"
 #include "wrapItem.h"
 #include "wrapBox.h"
+#include "wrapHolder_int.h"
+#include "wrapHolder_double.h"
 #include "wrapsimlib_deep.h"
 #endif
 #include "simhook.h"
@@ -28,6 +30,8 @@ void SIM_ShroudCopyArray(SIM_SHROUD_array *data, void *c_var, size_t c_var_size)
 #ifndef SIMC
 static SIM_Item h[NH];
 static SIM_Box bx[NH];
+static SIM_Holder_int hi[NH];
+static SIM_Holder_double hd[NH];
 #endif
 static SIM_SHROUD_capsule_data caps[NC];
 static int k;
@@ -119,6 +123,26 @@ static void do_op(const char *op, int a, int b, const char *text)
 #endif
 #ifndef SIMC
     else if (!strcmp(op, "assign")) { h[b] = h[a]; res_none(); }
+#endif
+#ifndef SIMC
+    else if (!strcmp(op, "hi_new")) { sim_phase(1); SIM_Holder_int_ctor(b, &hi[a]); sim_phase(0); res_none(); }
+    else if (!strcmp(op, "hd_new")) { sim_phase(1); SIM_Holder_double_ctor(b, &hd[a]); sim_phase(0); res_none(); }
+    else if (!strcmp(op, "hi_get")) { sim_phase(1); int r = SIM_Holder_int_get(&hi[a]); sim_phase(0); res_int(r); }
+    else if (!strcmp(op, "hd_get")) { sim_phase(1); double r = SIM_Holder_double_get(&hd[a]); sim_phase(0); res_int((long)r); }
+    else if (!strcmp(op, "hi_put")) { sim_phase(1); SIM_Holder_int_put(&hi[a], b); sim_phase(0); res_none(); }
+    else if (!strcmp(op, "hd_put")) { sim_phase(1); SIM_Holder_double_put(&hd[a], (double)b); sim_phase(0); res_none(); }
+    else if (!strcmp(op, "hi_delete")) { sim_phase(1); SIM_Holder_int_delete(&hi[a]); sim_phase(0); res_none(); }
+    else if (!strcmp(op, "hd_delete")) { sim_phase(1); SIM_Holder_double_delete(&hd[a]); sim_phase(0); res_none(); }
+    /* two instantiations of one template released through the library's release function */
+    else if (!strcmp(op, "hi_release")) { sim_phase(1); SIM_SHROUD_memory_destructor((SIM_SHROUD_capsule_data *)&hi[a]); sim_phase(0); res_none(); }
+    else if (!strcmp(op, "hd_release")) { sim_phase(1); SIM_SHROUD_memory_destructor((SIM_SHROUD_capsule_data *)&hd[a]); sim_phase(0); res_none(); }
+    else if (!strcmp(op, "arr_weights")) {
+        int *v = (int *)exact(sizeof(int) * a); for (int i = 0; i < a; i++) v[i] = i + 1;
+        int *w = (int *)exact(sizeof(int) * b); for (int i = 0; i < b; i++) w[i] = 2 + i;
+        sim_phase(1); SIM_arr_weights(v, a, w, b); sim_phase(0);
+        long s = 0; for (int i = 0; i < a; i++) s += v[i];
+        res_arr(a, s); free(v); free(w);
+    }
 #endif
 #ifndef SIMC
     else if (!strcmp(op, "make_box")) { sim_phase(1); SIM_make_box(b, &bx[a]); sim_phase(0); res_none(); }
